@@ -16,6 +16,7 @@ answering servers.  What is proved:
 -/
 import SemaModel.C13.Sites
 import SemaModel.C13.Lemmas
+import SemaModel.C13.Props
 namespace Sema.C13
 open Sema List
 
@@ -189,6 +190,25 @@ theorem C13_failover_depends (key : Bytes) {S : List Bytes} (nd : S.Nodup) (h2 :
       · unfold failover rendezvous; rw [hl]
         simp [List.find?, hab]
 
+/-! ### every node computes the same destination, whatever the order (or duplicates) of its server list -/
+
+/-- the sync destination of a record depends only on the SET of server names -/
+theorem C13_sync_dest_set {S S' : List Bytes} (k : Bytes) (nt : NoTies h (userOf k) S)
+    (same : ∀ a, a ∈ S' ↔ a ∈ S) : recDest h S' k = recDest h S k :=
+  C13_owner_set h (userOf k) nt same
+
+/-- … so does the destination of a shard directory -/
+theorem C13_shard_dest_set {S S' : List Bytes} (p : Bytes) (nt : NoTies h (shardOf p) S)
+    (same : ∀ a, a ∈ S' ↔ a ∈ S) : shardDest h S' p = shardDest h S p :=
+  C13_owner_set h (shardOf p) nt same
+
+/-- … and the server that serves a request (two nodes with differently ordered lists, the same
+answering servers) -/
+theorem C13_route_set {S S' : List Bytes} (key : Bytes) (up : List Bytes) (nt : NoTies h key S)
+    (same : ∀ a, a ∈ S' ↔ a ∈ S) : route h key S' up = route h key S up := by
+  unfold route
+  rw [C13_owner_set h key nt same]
+
 /-! ### routing once per user -/
 
 theorem userOf_of_sameDelim {k u : Bytes} (hu : delim ∉ u) (hs : sameDelim k u = true) : userOf k = u := by
@@ -261,5 +281,6 @@ example : route xxh u S3 [bs [110, 49], bs [110, 51]] = none ∧ route xxh u S3 
 example : failover xxh u S3 [bs [110, 49], bs [110, 51]] 2 = some (bs [110, 51])
     ∧ failover xxh u S3 [bs [110, 49], bs [110, 51]] 2 ≠ owner xxh u S3 := by decide
 example : S3.Nodup ∧ 2 ≤ S3.length := by decide
+example : NoTies xxh (userOf (recKey u0 ca)) S3 := by decide
 
 end Sema.C13
